@@ -266,7 +266,7 @@ func trivia(r *Rand, o *TextOpts, allowComment bool) string {
 	case 5:
 		return " "
 	case 6:
-		return Pick(r, []string{"  ", "\t", "\n", " \n ", "\r\n"})
+		return Pick(r, []string{"  ", "\t", "\n", " \n ", "\r\n", "\r", "\v", "\f", "\r\r"})
 	case 7:
 		if o.Unicode {
 			return Pick(r, []string{" ", "　", " ", "\u0085"})
